@@ -178,3 +178,66 @@ end
 theorem genDeriveFrame_pin : genDeriveFrame.length = 4 ∧ genDeriveFrame[2]? = some "<translated>" := by decide +kernel
 
 end GeomV.C20
+
+/-! ## wkt.go: datumRename -/
+namespace GeomV.C20
+open Num
+section
+variable {α : Type} [Num α]
+
+/-- one renaming statement of `datumRename`: `if c(code) { code = f(code) }` -/
+def renStep (c : Str → Bool) (f : Str → Str) (sr : SR α) : SR α :=
+  if c sr.datumCode then { sr with datumCode := f sr.datumCode } else sr
+
+/-- the `wgs_1984` statement: it also sets the sphere flag when the projection name is already known -/
+def wgsStep (sr : SR α) : SR α :=
+  if decide (sr.datumCode = s "wgs_1984") then
+    let sr : SR α := if decide (sr.name = s "Mercator_Auxiliary_Sphere") then { sr with sphere := true } else sr
+    { sr with datumCode := s "wgs84" }
+  else sr
+
+omit [Num α] in
+theorem renStep_eq (c : Str → Bool) (f : Str → Str) (sr : SR α) :
+    renStep c f sr = { sr with datumCode := if c sr.datumCode then f sr.datumCode else sr.datumCode } := by
+  unfold renStep; cases c sr.datumCode <;> rfl
+
+omit [Num α] in
+theorem wgsStep_eq (sr : SR α) :
+    wgsStep sr = { sr with datumCode := if sr.datumCode = s "wgs_1984" then s "wgs84" else sr.datumCode,
+                           sphere := if sr.datumCode = s "wgs_1984" then sr.sphere || decide (sr.name = s "Mercator_Auxiliary_Sphere")
+                                     else sr.sphere } := by
+  unfold wgsStep
+  by_cases h : sr.datumCode = s "wgs_1984"
+  · simp only [h, decide_true, if_true]
+    cases decide (sr.name = s "Mercator_Auxiliary_Sphere") <;> simp
+  · simp [h]
+
+omit [Num α] in
+theorem genDatumRename_steps (sr : SR α) :
+    genDatumRename sr =
+      renStep (fun dc => containsSub dc (s "belge")) (fun _ => s "rnb72")
+        (renStep (fun dc => hasSuffix dc (s "_jakarta")) (fun dc => trimSuffix dc (s "_jakarta"))
+          (renStep (fun dc => hasSuffix dc (s "_ferro")) (fun dc => trimSuffix dc (s "_ferro"))
+            (wgsStep
+              (renStep (fun dc => decide (dc = s "new_zealand_geodetic_datum_1949") || decide (dc = s "new_zealand_1949")) (fun _ => s "nzgd49")
+                (renStep (fun dc => decide (dc.take 2 = s "d_")) (fun dc => dc.drop 2) sr))))) := by
+  rfl
+
+omit [Num α] in
+theorem ite_trimSuffix (dc suf : Str) :
+    (if hasSuffix dc suf = true then trimSuffix dc suf else dc) = if hasSuffix dc suf = true then dc.take (dc.length - suf.length) else dc := by
+  unfold trimSuffix; by_cases h : hasSuffix dc suf = true <;> simp [h]
+
+omit [Num α] in
+/-- `(*SR).datumRename` of the current source is the model's `datumRename` (prefix `d_`, the New Zealand names, `wgs_1984` with
+the auxiliary-sphere flag, the suffixes `_ferro` / `_jakarta`, `belge`), for every code of at least two bytes (shorter ones
+panic in the slice expression: modelled as panic) -/
+theorem genDatumRename_eq (sr : SR α) (h : 2 ≤ sr.datumCode.length) : datumRename sr = ok (genDatumRename sr) := by
+  unfold datumRename
+  rw [if_neg (by omega), genDatumRename_steps]
+  simp only [renStep_eq, wgsStep_eq, ite_trimSuffix, decide_eq_true_eq, Bool.or_eq_true]
+  unfold renameCode renameHead
+  simp only [show (s "_ferro").length = 6 from rfl, show (s "_jakarta").length = 8 from rfl, decide_eq_true_eq, Bool.or_eq_true]
+
+end
+end GeomV.C20
